@@ -145,6 +145,9 @@ class RelaxationTensor(SuperOperator, Secular, Saveable):
             S1 = inv
         dim = SS.shape[0]
         
+        # the values are written back into the storage
+        self._data = self._storage_for_transform(self._data, SS)
+        
         if self._data.ndim == 4:
             for c in range(dim):
                 for d in range(dim):
